@@ -58,6 +58,11 @@ def reconn_scenarios(tier, rng):
     for j, ka in enumerate((0, 1, 5)):
         out.append(S("ka-deft%d" % j, [P(1)], ["conn"], [], opts={"pingMs": 25, "keepAliveSec": ka, "quietMs": 250}))
         out.append(S("ka-defs%d" % j, [P(1)], ["conn"], [{"p": "PINGREQ", "n": 2, "o": "dropAck"}], opts={"pingMs": 25, "keepAliveSec": ka, "quietMs": 250}))
+    # "sends a ping every interval while the connection is healthy" -- also while the application keeps sending (what the
+    # client writes says nothing about the peer): QoS 0 publishes every 2 ms, pings every 20 ms; later the peer goes silent
+    for j in range(2):
+        out.append(S("ka-traffic%d" % j, [P(1)], ["conn"], [], opts={"pingMs": 20, "connTimeoutMs": 150, "quietMs": 300, "hammerPub": 1, "hammerSleepUs": 2000, "deadlineMs": 1500}))
+        out.append(S("ka-traffs%d" % j, [P(1)], ["conn"], [{"p": "PINGREQ", "n": 3, "o": "dropAck"}], opts={"pingMs": 20, "connTimeoutMs": 100, "quietMs": 300, "hammerPub": 1, "hammerSleepUs": 2000, "deadlineMs": 1500}))
     # a very prompt peer: the PINGRESP has been read and dispatched before Transport.Write of the PINGREQ returns
     for j in range(2 if tier == "quick" else 10):
         out.append(S("ka-prompt%d" % j, [P(1)], ["conn"], [], opts=dict(opts, pingMs=8, promptAcks=True, quietMs=200)))
@@ -173,6 +178,18 @@ def run(tier):
         if "crash" in res:
             kind, msg = rf.crash_kind(res["crash"])
             verd.witness(kind, "", msg, {"scenario": byid[sid], "crash": res["crash"][-3000:]})
+        elif sid.startswith("ka-traffic"):
+            # >= 300 ms of a healthy connection with a ping interval of 20 ms: 15 pings are due; fewer than 5 PINGREQs on the
+            # wire means the loop does not ping while the application is sending (must reproduce once more)
+            def pings(r_):
+                return sum(1 for e in r_["evs"] if e["e"] == "Write" and e["p"] == "PINGREQ")
+            n1 = pings(res)
+            if n1 < 5:
+                r2 = rf.run_scenarios(binary, [dict(byid[sid], id=sid + "-again")], conc=1)
+                n2 = pings(list(r2.values())[0])
+                if n2 < 5:
+                    verd.witness("ping-cadence-under-traffic", "", "scenario %s: %d and %d PINGREQs in >= 300 ms of a healthy connection (interval 20 ms) while QoS 0 publishes go out every 2 ms"
+                                 % (sid, n1, n2), {"scenario": byid[sid], "pings": [n1, n2]})
     rc = verd.finish()
     nontriv = len({tuple(e["s"]) for e in table if any(x != "ok" for x in e["s"])})
     vlib.write_evidence(PID, tier, "model_checking", {
